@@ -53,6 +53,9 @@ MUT_CONTAINERS = re.compile(
 )
 
 
+SELECTOR = re.compile(r"^std::iter::Iterator::(filter|skip_while|take_while|inspect)$|^std::option::Option::<T>::filter$")
+
+
 def transparent(t):
     for n in (t.get("callee"), t.get("resolved")):
         if not n:
@@ -113,6 +116,7 @@ class Slice:
         self.calls = {}  # bb -> term  (every call site traversed or reached)
         self.locals = set()
         self.visited = set()
+        self.predicates = {}  # bb of a filter-like call -> its predicate operand
 
     def call_names(self):
         out = set()
@@ -404,6 +408,13 @@ class Flow:
             for a in t["args"][1:]:
                 # index operands etc. do not carry the value
                 pass
+            return
+        if SELECTOR.search(name) and len(t["args"]) == 2:
+            # iterator.filter(pred) and friends: the items derive from the receiver; the predicate
+            # selects, it does not supply data.  It is remembered so that rules can treat it as a guard.
+            s.predicates[bb] = t["args"][1]
+            s.roots.add(("callnode", bb, name, tuple(rest)))
+            self._visit_operand(t["args"][0], (), s, stop, mut_ok, tac)
             return
         if "callee" not in t:
             # indirect call through a fn pointer / closure value
